@@ -18,37 +18,60 @@ class C27(Prop):
     level = "proof"
     ready = True
     manifest = dict(
-        text="Coq theorems over the byte layout of a recorded fMP4 segment (init = ftyp box ++ moov box, then one moof box "
-             "++ mdat box per part, one Write call each) and the crash model of the property (any prefix of the "
-             "concatenated writes, optionally followed by zero bytes, the duration rewrite absent, complete or torn): every "
+        text="Coq theorems at two levels. (1) Byte layout and crash model of one recorded fMP4 segment (init = ftyp box ++ "
+             "moov box, then one moof box ++ mdat box per part, one Write call each; a crash image = any prefix of the "
+             "concatenated writes, optionally followed by zero bytes; the duration rewrite absent, complete or torn): every "
              "crash image is the complete parts plus at most one proper prefix of the next part; the moof/mdat walk of the "
              "reader (the model that C28 ties to segmentFMP4ReadDurationFromParts) ends, for every cut and every number of "
              "zero bytes, on the last part whose moof box and mdat header are on disk, i.e. the last complete part or the "
              "one right after it - complete parts are never skipped, the loss is bounded by one part; a normal close "
              "records endDTS-startDTS truncated to a millisecond; consecutive segments (same stream id, n and n+1) are "
-             "recognised as continuous. The real recorder records generated streams, and the real reader functions are "
-             "run on every recorded segment cut at every box boundary +-8 and at sampled offsets, with and without zero "
-             "tails.",
-        note="PARTIAL: the segmenter's switching rules (formatFMP4Track.write: segment starts on a sync sample, part "
-             "switching) are not modelled - the properties 'starts with a random-access sample' and 'continuous' are "
-             "checked on the recorded segments only; that each part is ONE write call and that the close rewrites "
-             "the mvhd payload in place is read from the source, not observed (no strace); the filesystem's own crash "
-             "semantics are the property's prefix+zero-fill model; the mediacommon encoders are trusted to produce the "
-             "box layout (checked on every recorded file by a structural walk).",
+             "recognised as continuous. (2) The segmenter (formatFMP4Track.write, formatFMP4Segment.write/closeCurPart/"
+             "close, formatFMP4Part.write, nextSegmentStartingPos, the first-key-frame gate) as a state machine over "
+             "samples (track, dts, ntp, non-sync, size) that produces the log of file operations; for ALL configurations "
+             "and ALL sample sequences: the log is create 0, parts, close 0, create 1, ... (files numbered 0,1,2,..., all "
+             "closed at the end, the log at any earlier time a prefix of it); the parts of all files concatenated are exactly "
+             "the samples accepted by formatFMP4Segment.write, in order; every part obeys the size and duration bounds the "
+             "code enforces; with one video track every file starts on a sync sample; read as calls on a file the log of "
+             "a file IS the write log of level 1, so the crash theorems apply to every file of every run. The real fMP4 "
+             "format is driven with generated sample streams (direct calls of formatFMP4Track.write, and whole recordings "
+             "through Recorder+Stream), the files are read back and compared with the model; the same runs once more in a "
+             "child process under strace, so that the write(2) calls per file are observed; the real reader functions are "
+             "run on every recorded segment cut at every box boundary +-8 and at sampled offsets, with and without zero tails.",
+        note="FIXED FINDING (2f5314e): a late video key frame was discarded and the non-sync frames after it were written, so "
+             "a segment could begin with undecodable video. REFUTED for two video tracks (C27_starts_on_sync_two_video_"
+             "refuted): the switch follows the key frames of one track. Observed by strace and only tested, not modelled "
+             "byte by byte: the duration rewrite is ~100 one-byte write(2) calls (go-mp4 marshals the mvhd payload byte by "
+             "byte into the unbuffered file), so a torn rewrite is a realistic state; the theorems hold for every moov "
+             "payload, i.e. in every such state, but /list then reports the torn duration. The filesystem's own crash "
+             "semantics are the property's prefix+zero-fill model; the mediacommon encoders are oracles (box sizes read "
+             "back from the files); timestamp sums other than timestampToDuration are on Z (no int64 wrap); I/O errors are "
+             "not modelled.",
         technique="Coq proof (induction over the part list with the running prefix, list surgery on firstn/skipn/app; "
-                  "monotonicity of the walk in its fuel) + correspondence by vm_compute")
-    rule = ("two recordings per run in the quick tier (MPEG-4 Video with generated GOP lengths 3..14 at 25 fps, with and "
-            "without AAC audio; part 100/200 ms, segment 1000/800 ms -> 3 segments each), eight in thorough; per segment: "
-            "closed-duration, first-video-sample and concatenation checks; crash points = every part start, +8, end of "
-            "moof, end of mdat header, each -8..+8, with 0 and 64 zero bytes, the complete file with 0 and 4096 zero "
-            "bytes, then random offsets with random zero tails; non-trivial = all cases; distinct = distinct descriptions")
+                  "monotonicity of the walk in its fuel; for the segmenter: invariants by induction over the sample "
+                  "sequence through a case classification of formatFMP4Track.write, with a weaker invariant after the first "
+                  "failed write) + correspondence by vm_compute + strace of the real process")
+    rule = ("recorder driver: two recordings through Recorder+Stream in the quick tier (MPEG-4 Video with generated GOP "
+            "lengths 3..14 at 25 fps, two leading non-key frames; with AAC audio that starts 10 ms after the first key "
+            "frame and arrives first - the late-key-frame case - and without audio), eight in thorough, ended by an end "
+            "marker instead of a sleep; 30 (thorough 1500) generated sample streams handed to formatFMP4Track.write: 0-2 "
+            "video tracks (H.264 / MPEG-4 Video) and 0-2 audio tracks (Opus / AAC), GOP 1..12, 10/25/30 fps with jitter, "
+            "backward steps and gaps, track offsets up to +-1.6 s, negative timestamps, NTP jitter and drift beyond the "
+            "tolerance, small max part sizes (oversize samples), ungated streams; 3 (thorough 12) of these streams again in "
+            "a child under strace. Playback driver: per recorded segment closed-duration, first-video-sample and "
+            "concatenation checks; crash points = every part start, +8, end of moof, end of mdat header, each -8..+8, with "
+            "0 and 64 zero bytes, the complete file with 0 and 4096 zero bytes, then random offsets with random zero "
+            "tails; non-trivial = all cases; distinct = distinct descriptions")
     trusted_base = ["Coq 8.16.1 kernel + VM",
-                    "in-package Go drivers zz_verif_c27_rec_test.go (package recorder) and zz_verif_c27_test.go (package playback)",
+                    "in-package Go drivers zz_verif_c27_rec_test.go, zz_verif_c27_seg_test.go, zz_verif_c27_strace_test.go "
+                    "(package recorder) and zz_verif_c27_test.go (package playback)",
                     "Model/C28_SegRead.v moof_loop as the meaning of the reader's walk (tied to the code by C28's correspondence run)",
-                    "oracle: mediacommon fmp4.Init/Parts Marshal+Unmarshal (layout and per-part durations of the recorded files)"]
+                    "oracle: mediacommon fmp4.Init/Parts Marshal+Unmarshal (layout, per-part durations, samples of the recorded files)",
+                    "strace 6.x output format (openat/read/write/lseek/close lines, unfinished/resumed pairs)"]
     assumptions = ["crash model of the property: file = prefix of the concatenated writes + optional zero bytes",
-                   "writeInit and writePart issue one Write call each (read from the source)",
-                   "boxes are shorter than 2^32 bytes"]
+                   "writeInit and writePart issue one write(2) each (observed by strace in every run; if ptrace is not "
+                   "permitted the run says so in the driver summary and the assumption is read from the source)",
+                   "boxes are shorter than 2^32 bytes", "timestamps far from 2^63; no I/O errors"]
 
     def run_drivers(self, ctx, n, seed, replay=None):
         # only this property's driver files (and C28's, whose helpers the playback driver uses) go into the overlay
